@@ -1,10 +1,13 @@
 package harness
 
 import (
+	"encoding/json"
 	"fmt"
 	"math/rand"
+	"os"
 	"regexp"
 	"strconv"
+	"strings"
 	"sync"
 	"testing"
 	"time"
@@ -206,6 +209,47 @@ func runMesh(t *testing.T, c meshCfg) sim.Result {
 	return res
 }
 
+// meshFromTLC turns a configuration printed by MC_MeshScn.tla into a driver configuration
+func meshFromTLC(steps []string) meshCfg {
+	var c meshCfg
+	ints := func(f []string) []int {
+		var v []int
+		for _, x := range f {
+			n, err := strconv.Atoi(x)
+			if err != nil {
+				panic(fmt.Sprint("bad mesh scenario ", steps))
+			}
+			v = append(v, n)
+		}
+		return v
+	}
+	for _, st := range steps {
+		f := strings.Fields(st)
+		switch f[0] {
+		case "kind":
+			c.kind = f[1]
+		case "n":
+			c.n = ints(f[1:])[0]
+		case "edge":
+			v := ints(f[1:])
+			c.edges = append(c.edges, [2]int{v[0], v[1]})
+		case "ttl":
+			c.ttl = ints(f[1:])
+		case "hubs":
+			c.hubs = ints(f[1:])
+		case "bridge":
+			c.bridge = true
+		case "device":
+		default:
+			panic(fmt.Sprint("bad mesh scenario ", steps))
+		}
+	}
+	if c.n < 2 || len(c.ttl) != c.n || len(c.edges) == 0 {
+		panic(fmt.Sprint("bad mesh scenario ", steps))
+	}
+	return c
+}
+
 func TestMesh(t *testing.T) {
 	out := newOut(t, "mesh")
 	defer out.Close()
@@ -252,6 +296,38 @@ func TestMesh(t *testing.T) {
 			e = append(e, [2]int{1 + rng.Intn(i-1), i})
 		}
 		return e
+	}
+	if f := os.Getenv("VERIF_SCN_FILE"); f != "" {
+		// configurations TLC enumerated from spec/mc/MC_MeshScn.tla
+		data, err := os.ReadFile(f)
+		if err != nil {
+			panic(err)
+		}
+		var all []meshCfg
+		for _, ln := range strings.Split(string(data), "\n") {
+			if strings.TrimSpace(ln) == "" {
+				continue
+			}
+			var x struct {
+				Steps []string `json:"steps"`
+			}
+			if err := json.Unmarshal([]byte(ln), &x); err != nil {
+				panic(err)
+			}
+			all = append(all, meshFromTLC(x.Steps))
+		}
+		rng.Shuffle(len(all), func(i, j int) { all[i], all[j] = all[j], all[i] })
+		if n := count(120, 1000000); n < len(all) {
+			all = all[:n]
+		}
+		for _, c := range all {
+			if out.Stop() {
+				break
+			}
+			c.nmsgs = 1 + rng.Intn(2)
+			add(c)
+		}
+		return
 	}
 	reps := count(1, 6)
 	for r := 0; r < reps; r++ {
